@@ -497,7 +497,13 @@ def _apply_contract(E, c, fn, args, kwargs, node, env, site):
     exc_nodes = {k: _parse(v) for k, v in c.exc_ensures.items()}
     saved_old = getattr(E, 'old_stash', {})
     old = _collect_old(E, list(ens_nodes.values()) + list(exc_nodes.values()), env)
-    E.trace.append(('contract-call', c.func, dict(env.locals)))
+    snap = {}
+    for pn, pv in env.locals.items():
+        if isinstance(pv, VRef) and isinstance(E.heap[pv.addr], HObj):
+            hh = E.heap[pv.addr]
+            if isinstance(hh.cls, VCls) and hh.cls.name == 'TemplateDict' and isinstance(hh.fields.get('_data'), VRef):
+                snap[pn] = list(E.heap[hh.fields['_data'].addr].items)
+    E.trace.append(('contract-call', c.func, dict(env.locals), snap))
     E.havoced = True
 
     def raise_with(cls):
